@@ -43,6 +43,11 @@ var siteNames = []string{"start", "sink", "bufw", "ctx.get", "ctx.set", "ctx.com
 // sites >= siteDeepBase are scheduling points inserted into a copy of goldmark by ./instr
 const siteDeepBase uint16 = 1000
 
+// deep sites around calls of synchronisation primitives (see instr: syncBase)
+const siteDeepSyncBase uint16 = siteDeepBase + 20000
+
+func isSyncSite(s uint16) bool { return s >= siteDeepSyncBase || isHookSite(s) }
+
 func siteName(s uint16) string {
 	if int(s) < len(siteNames) {
 		return siteNames[s]
